@@ -3,7 +3,7 @@ open Svmodel
 open Util
 
 type t = { kind : char; code : int; inl : int option }
-type doc = { cram : bool; role : char; docskip : int option; total : int option; tests : t list; idx : int }
+type doc = { cram : bool; role : char; docskip : int option; total : int option; tests : t list; idx : int; fileno : int }
 
 let parse_test s =
   let kind = s.[0] in
@@ -16,7 +16,8 @@ let parse_doc idx s =
   match split_on ':' s with
   | [fr; sk; tt; ts] ->
     { cram = fr.[0] = 'c'; role = fr.[1]; docskip = (if sk = "-" then None else Some (int_of_string sk));
-      total = (if tt = "-" then None else Some (int_of_string tt)); tests = List.map parse_test (split_on ',' ts); idx }
+      total = (if tt = "-" then None else Some (int_of_string tt)); tests = List.map parse_test (split_on ',' ts); idx;
+      fileno = (if String.length fr > 2 then int_of_string (String.sub fr 2 (String.length fr - 2)) else idx) }
   | _ -> failwith "doc"
 
 let res_str = function Some Success -> "ok" | Some Failed -> "failed" | Some FailedTimeout -> "timeout" | Some RSkipped -> "skipped" | None -> "none"
@@ -56,7 +57,7 @@ let run () = iter_lines (fun line ->
     let exp_entries = if errored then [] else
         List.concat (List.map2 (fun (m, all, _, _, _) results ->
           List.concat (List.map2 (fun ((d : doc), i, _) r ->
-            match r with None -> [] | Some _ -> [Printf.sprintf "doc%d.%s/D%dT%d=%s" m.idx (if m.cram then "t" else "md") d.idx i (res_str r)]) all results)) plan mout) in
+            match r with None -> [] | Some _ -> [Printf.sprintf "doc%d.%s/D%dT%d=%s" m.fileno (if m.cram then "t" else "md") d.idx i (res_str r)]) all results)) plan mout) in
     let rec marks_until = function
       | [] -> []
       | (m, all, _, rs, e) :: rest ->
